@@ -57,7 +57,10 @@ class Dos:
             width = named(w, "width", "real")
             pts = [named(w, f"e{j}", "real") for j in range(NPTS)]
 
+            window = {}
+
             def linspace(it, a, k):
+                window["lo"], window["hi"] = a[0], a[1]
                 out = FlatArr((NPTS,))
                 for j in range(NPTS):
                     out.a[j] = pts[j]
@@ -78,8 +81,17 @@ class Dos:
                     flat[j] = it.w.uf("exp", [v], "real")
                 return out
 
+            def extremum(is_min):
+                def f(it, a, k):
+                    # contract of xp.min / xp.max: a bound of every element that is itself an element
+                    elems = [v for v in a[0].a.reshape(-1)]
+                    m = it.w.fresh("min" if is_min else "max", "real")
+                    it.p.pc.append(z3.And([(m.e <= v.e) if is_min else (m.e >= v.e) for v in elems] + [z3.Or([m.e == v.e for v in elems])]))
+                    return m
+                return f
+
             ext = dict(NUM_EXT)
-            ext.update({"xp.min": lambda it, a, k: it.w.uf("min", [a[0]], "real"), "xp.max": lambda it, a, k: it.w.uf("max", [a[0]], "real"),
+            ext.update({"xp.min": extremum(True), "xp.max": extremum(False),
                         "xp.linspace": linspace, "xp.zeros": zeros, "xp.exp": expf, "math.sqrt": lambda it, a, k: math.sqrt(a[0])})
             for spin in range(NSPIN):
                 def run(it, spin=spin):
@@ -91,6 +103,18 @@ class Dos:
                     raise OutsideSubset(f"get_dos: {[(r.outcome, str(r.value)[:80]) for r in res]}")
                 e, dos = res[0].value
                 it = res[0].interp
+                # the energy window holds every state of the channel with a margin of 5 widths (so that the unit-area Gaussians are inside it:
+                # the part of a Gaussian cut off is below erfc(5) = 1.5e-12 of its area)
+                if "lo" not in window:
+                    raise OutsideSubset("energy axis is not built with linspace")
+                lo, hi = (x.e if isinstance(x, Sym) else z3.RealVal(x) for x in (window["lo"], window["hi"]))
+                goal = z3.And([z3.And(lo <= eps.a[k, spin, i].e - 5 * width.e, hi >= eps.a[k, spin, i].e + 5 * width.e) for k in range(NK) for i in range(NST)])
+                v, m = check_valid(w, list(res[0].path.pc), goal, timeout_ms=20000)
+                if v != "proved":
+                    wit = dict(spin=spin, clause="window")
+                    ok, info = self.replay(wit)
+                    return Result(REFUTED if ok else UNDECIDED, backend="z3", witness=wit, replayed=ok, replay_info=info, solver_output=str(m)[:1200],
+                                  detail="get_dos: the energy window does not contain every state of every k-point with a margin of 5 widths (the DOS then integrates to less than the number of states)")
                 for j in range(NPTS):
                     want = z3.RealVal(0)
                     for k in range(NK):
@@ -123,8 +147,11 @@ class Dos:
         eminus.config.backend = "numpy"
         rng = np.random.default_rng(3)
         bad = {}
-        for Nk, Nst in ((1, 4), (3, 2), (2, 5)):
+        for Nk, Nst in ((1, 4), (3, 2), (2, 5), (4, 3)):
             eps = np.sort(rng.uniform(-1, 1, (Nk, 2, Nst)), axis=2)
+            if Nk == 4:  # band extrema at interior k-points
+                eps[1] -= 1.5
+                eps[2] += 1.5
             wk = rng.uniform(0.1, 1, Nk)
             wk /= wk.sum()
             for spin in (0, 1):
